@@ -68,7 +68,9 @@ def table_seeded():
             if r.get('by'):
                 out += f" by check {r['by']}"
         else:
-            out = 'MISSED'
+            out = 'MISSED by its own check'
+        for other, rr in (r or {}).get('also', {}).items():
+            out += f"; check {other}: " + (f"CAUGHT ({rr.get('kind')}: {esc(rr.get('what') or '', 100)})" if rr.get('caught') else 'missed')
         rows.append(f"| {name} | {meta['property']} | {esc(meta.get('summary', ''), 200)} — needs: {esc(meta.get('needs', ''), 200)} | {out} |")
     return '\n'.join(rows)
 
